@@ -53,6 +53,9 @@ let string_of_dent = function
     Printf.sprintf " F %s %o %s %s" (hex_of_loc l) (int_of_n p) (string_of_mtime t) (hex_of_bytes d)
   | DLink (l, t) -> Printf.sprintf " L %s %s" (hex_of_loc l) (hex_of_bytes t)
 
+(* the canonical dump of a filesystem state, as printed after the "|" (shared with d_rdr.ml) *)
+let dump_string (s : fs) : string = String.concat "" (List.map string_of_dent (dump s))
+
 let do_fs args =
   let uid0, toks = match args with "root" :: r -> true, r | r -> false, r in
   match parse_ops toks with
